@@ -415,7 +415,7 @@ pub fn run(eng: &Engine) {
     eng.set_rule("a scripted matcher implementing the public Matcher trait replays a generated parse that is valid by construction (data and parse generated together: windows 2^10..2^23 spanning many blocks, block shapes biased to the interface's corners: up to one sequence per 3 bytes (>= 32512 / 32768 per block), all literal lengths 0, all match lengths 3, lengths at every code boundary, ll up to 131069, ml up to 131072, > 1024 equal literals, literals around the 1 KiB / 16 KiB thresholds, incompressible blocks followed by Huffman-friendly ones, offsets at the far edge of the window) or a parse produced by ZSTD_generateSequences (levels 1..19, min-match 3); oracle: compress() returns, libzstd and this crate decode the frame to the input, the strict walker finds exactly the scripted sequences in every block stored compressed; non-trivial = the parse lies outside what the built-in matcher can emit (a match of length 3 or 4, an offset > 128 KiB, or > 26214 sequences in a block); distinct by frame hash");
     eng.assume("matcher spaces have a length >= 1; the matcher never lies about its data");
     let tier = eng.tier;
-    let n = eng.tier.pick(3_000, 80_000);
+    let n = eng.tier.pick(30_000, 500_000);
     eng.run_stage("scripted_parses", n, || case_strategy(tier), check);
 }
 
